@@ -1,7 +1,8 @@
 """Sensitivity self-test: apply small semantic mutations to a scratch copy of the
 library and confirm that the property's quick check reports a violation.
 
-usage: /venv/bin/python selftest/mutants.py [--suite] [--only NAME[,NAME]] [--prop C04]
+usage: /venv/bin/python selftest/mutants.py [--suite] [--only NAME[,NAME]] [--prop C04] [--benign]
+(--benign runs selftest/benign_table.py instead: property-preserving refactors that must NOT alarm)
 Each mutant is (name, property, file, old, new).  Scratch copies live under /dev/shm
 and are removed straight away.  With --suite the repository's own tests are run on the
 mutated copy first (a mutant that the suite already kills proves nothing).
@@ -18,6 +19,7 @@ HERE = os.path.dirname(os.path.abspath(__file__))
 VERIF = os.path.dirname(HERE)
 sys.path.insert(0, HERE)
 from mutant_table import MUTANTS  # noqa: E402
+from benign_table import BENIGN  # noqa: E402
 
 
 def run(m, suite=False, tier="quick"):
@@ -71,7 +73,8 @@ def main():
         if a == "--tier":
             tier = args[k + 1]
     res = []
-    for m in MUTANTS:
+    benign = "--benign" in args
+    for m in (BENIGN if benign else MUTANTS):
         if only and m[0] not in only:
             continue
         if prop and m[1] not in prop:
@@ -80,6 +83,11 @@ def main():
         res.append(r)
         print(json.dumps(r))
         sys.stdout.flush()
+    if benign:
+        # property-preserving refactors: the check must stay silent (exit 0)
+        alarms = [r["name"] for r in res if r.get("rc") != 0]
+        print(f"SUMMARY benign refactors: {len(res) - len(alarms)}/{len(res)} silent; false alarms: {alarms}")
+        sys.exit(1 if alarms else 0)
     killed = sum(r["status"] == "KILLED" for r in res)
     print(f"SUMMARY killed {killed}/{len(res)}; missed: {[r['name'] for r in res if r['status'] != 'KILLED']}")
 
